@@ -439,7 +439,15 @@ bool apply(int op, uint8_t a, uint8_t b, uint8_t c, int ntab, size_t K, size_t m
         bool failed = alloc_failures() != f0;
         TRACE("%s resize n=%zu f=%s%s", t.tag, n, FN[f], failed ? " [allocation failed]" : "");
         if (n == 0) { CNT("class.resize.zero"); break; }
-        if (grows_cap && failed) {
+        bool took_effect_anyway = false;
+        if (grows_cap && failed && t.has_buckets && t.n > 0 && n != t.tgt_n && n <= g_alloc_limit / 16) {
+            // a request was refused, yet the table may have found another way: the load tells (it is computed
+            // against the requested bucket count as soon as a resize is accepted)
+            float ld, took = (float)t.n / (float)n;
+            LIB(ld = cstl_hash_load(&t.h));
+            took_effect_anyway = std::fabs(ld - took) <= 1e-6f * std::fabs(took);
+        }
+        if (grows_cap && failed && !took_effect_anyway) {
             // cannot be satisfied: quietly nothing
             CNT("class.resize.alloc_failed");
             if (t.has_buckets) {
